@@ -291,9 +291,9 @@ func TestVerifC08(t *testing.T) {
 
 func c08Budget(run *vlib.Run) time.Duration {
 	if run.Single() {
-		return 180 * time.Second
+		return 120 * time.Second
 	}
-	return 60 * time.Second
+	return 30 * time.Second
 }
 
 // c08Stress runs long, unrecorded high-contention rounds watched by the in-critical-section
